@@ -9,6 +9,9 @@ INSTALL = ["matching"]
 
 
 def _run(seed):
+    if seed % 2 == 1:
+        drivers.deep_book_history(seed)
+        return
     rng = random.Random(seed)
     m = drivers.mk_market()
     continuous = seed % 2 == 0
